@@ -31,6 +31,11 @@ for d in sorted(os.listdir(f"{V}/seeded")):
         subprocess.run(["git", "-C", "/repo", "checkout", "--", "."])
     viol = [l for l in out.splitlines() if l.startswith("VIOLATION")]
     nf = sum("no-failing-input-found" in l for l in viol)
+    if meta.get("neutralised_by"):
+        # a later repair made this change harmless (its demonstration passes with it): the check must stay silent
+        rows.append((d, chk, (f"ALARM on a change that no longer breaks the property ({len(viol)} violation lines)" if viol
+                              else f"silent, as it should be: neutralised by {meta['neutralised_by']}"), time.time() - t0))
+        continue
     rows.append((d, chk, f"detected ({len(viol)} violation lines, {nf} without failing input)" if viol else "MISSED", time.time() - t0))
     print(rows[-1], flush=True)
 for sub in ("evidence", "replays"):
